@@ -20,7 +20,7 @@ from fractions import Fraction
 import torch
 
 from .aggsym_common import (EPS, F64, NORM_EPS, PE_NORM, ROSTER, build, call, cond_of, ld, maxdiff, mgda_gap,
-                            norm_eps_side, rationalise, ref_of, seed_of)
+                            norm_eps_side, rationalise, ref_of)
 from .core import Ctx, MachineryError
 from .tlc import run_tlc
 
